@@ -102,6 +102,19 @@ def _run(cmd, timeout, mem_gb, log, cwd=None, quiet=False):
     return rc, out, dt
 
 
+_EXPECTED = None
+
+
+def _expected_time(name):
+    global _EXPECTED
+    if _EXPECTED is None:
+        try:
+            _EXPECTED = json.load(open(os.path.join(VERIF, "run", "expected_times.json")))
+        except (OSError, ValueError):
+            _EXPECTED = {}
+    return _EXPECTED.get(name)
+
+
 def generate(group, repo=None):
     """Extract all units and write the translation unit. Returns (path, unit_infos)."""
     os.makedirs(GEN, exist_ok=True)
@@ -256,7 +269,22 @@ def run_group(group, repo=None, trace=False):
     if trace:
         cmd += ["--trace"]
     res["checker_cmd"] = " ".join(["goto-cc …", "|", "goto-instrument --dfcc …" if cur == gb2 else "", "|"] + cmd[:1] + cmd[2:])
-    rc, out, dt = _run(cmd, group.timeout, group.mem_gb, log, quiet=True)
+    # SAT back ends show performance cliffs on semantically irrelevant perturbations (measured: two macro lines added to models/fsl.h moved
+    # router.par.block.nb2 from 10 s to no answer in 600 s on minisat, 20 s on cadical).  A first attempt capped at a multiple of the group's
+    # recorded normal time (run/expected_times.json, written by run/record_times.py from the last full run) that times out is therefore
+    # retried on the other SAT solver with the group's full time limit; every verdict comes from one complete solver run.
+    first_to = group.timeout
+    alt = {"sat": "cadical", "cadical": "sat", "kissat": "cadical"}.get(group.backend)
+    exp = _expected_time(group.name)
+    if alt and exp is not None:
+        first_to = int(min(group.timeout, 4 * exp + 90))
+    rc, out, dt = _run(cmd, first_to, group.mem_gb, log, quiet=True)
+    if rc == -9 and alt:
+        cmd2 = [c for c in cmd if c not in ("--sat-solver", "cadical", "--external-sat-solver", "kissat")]
+        cmd2 = cmd2[:1] + cmd2[1:2] + BACKENDS[alt] + cmd2[2:]
+        rc, out, dt2 = _run(cmd2, group.timeout, group.mem_gb, log, quiet=True)
+        dt += dt2
+        res["backend_used"] = alt + " (fallback after a timeout of %ds on %s)" % (first_to, group.backend)
     with open(os.path.join(GEN, group.name + ".cbmc.json"), "w") as f:
         f.write(out)
     res["cbmc_json"] = os.path.join(GEN, group.name + ".cbmc.json")
